@@ -142,8 +142,16 @@ fn edit(r: &mut Rng, m: &ModelS, counter: &mut usize) -> (ModelS, bool, String) 
         }
         1 => {
             // two fields at once (their identifiers must not depend on hash order)
-            for d in 0..2 {
-                let mut f = gen_field(r, 200 + c * 2 + d);
+            // declared in an order that is neither alphabetical nor the order of any hash: their identifiers follow
+            // the declaration
+            let k = 2 + r.usize(2);
+            let mut names: Vec<String> = (0..k).map(|d| format!("{}{}", ["zz", "mm", "aa"][d % 3], 200 + c * 3 + d)).collect();
+            if r.chance(1, 2) {
+                names.reverse();
+            }
+            for name in names {
+                let mut f = gen_field(r, 0);
+                f.name = name;
                 f.nullable = true;
                 n[ni].entities[ei].fields.push(f);
             }
@@ -324,9 +332,10 @@ pub fn directed(property: &str) -> Vec<Trace> {
         note: Some(name.to_string()),
     };
     let mut two = base.clone();
-    two[0].entities[0].fields.push(fn_("x", 0));
-    two[0].entities[0].fields.push(fn_("y", 1));
-    two[0].entities[0].fields.push(fn_("z", 2));
+    two[0].entities[0].fields.push(fn_("surname", 0));
+    two[0].entities[0].fields.push(fn_("age", 1));
+    two[0].entities[0].fields.push(fn_("zip", 2));
+    two[0].entities[0].fields.push(fn_("city", 0));
     let mut mixed = base.clone();
     mixed[0].entities[0].fields.push(fn_("x", 0));
     mixed[0].entities[1].fields[0].ty = 0;
